@@ -39,16 +39,16 @@ func (n *fnode) diskName() string {
 }
 
 type c11state struct {
-	rt       *rapid.T
-	w        *hlsim.World
-	c        *hlsim.Conn
-	root     *fnode
-	ignore   []*regexp.Regexp
-	history  []string
-	nt       bool
-	sideMut  bool // a mutating action on an entry with side files has happened
-	ev       *evid.Rec
-	nameSeq  int
+	rt      *rapid.T
+	w       *hlsim.World
+	c       *hlsim.Conn
+	root    *fnode
+	ignore  []*regexp.Regexp
+	history []string
+	nt      bool
+	sideMut bool // a mutating action on an entry with side files has happened
+	ev      *evid.Rec
+	nameSeq int
 }
 
 func (s *c11state) fail(f string, a ...any) {
@@ -394,7 +394,9 @@ func (s *c11state) genName(label string, d *fnode, maxLen int) string {
 	return fmt.Sprintf("fresh%d", s.nameSeq)
 }
 
-func hasSideFiles(n *fnode) bool { return n.kind == "file" && (n.hasInfo || n.rsrc != nil || n.partial) }
+func hasSideFiles(n *fnode) bool {
+	return n.kind == "file" && (n.hasInfo || n.rsrc != nil || n.partial)
+}
 
 func c11prop(ev *evid.Rec) func(rt *rapid.T) {
 	return func(rt *rapid.T) {
